@@ -16,5 +16,5 @@ def run(ctx):
     )
     r.not_decided = ["Reference.__eq__ semantics (library)"]
     run_kernels(ctx, ["K13", "K16"], "C10")
-    builtin_method_lint(ctx, "C10.builtin-method", scope=("moclo.core._assembly",))
+    ctx.guard(builtin_method_lint, ctx, "C10.builtin-method", scope=("moclo.core._assembly",))
     r.floors["C10.builtin-method"] = 3
